@@ -56,10 +56,117 @@ class Rec(dict):
             raise AttributeError(k)
 
 
+class LazySeq:
+    """Deferred (LINQ-style) sequence: elements are computed on demand and cached.  First() only forces the first
+    element, so the library's First(seq).m() -> First(Select(seq, s: s.m())) rewrite means the same thing."""
+
+    def __init__(self, it):
+        self._it = iter(it)
+        self._cache = []
+
+    def __iter__(self):
+        i = 0
+        while True:
+            if i < len(self._cache):
+                yield self._cache[i]
+                i += 1
+                continue
+            try:
+                v = next(self._it)
+            except StopIteration:
+                return
+            self._cache.append(v)
+
+    def _force(self):
+        for _ in self:
+            pass
+        return self._cache
+
+    def __len__(self):
+        return len(self._force())
+
+    def __getitem__(self, i):
+        if isinstance(i, int) and i >= 0:
+            for k, v in enumerate(self):
+                if k == i:
+                    return v
+            raise IndexError(i)
+        return self._force()[i]
+
+    def __eq__(self, o):
+        return list(self) == list(o)
+
+    def __hash__(self):
+        return id(self)
+
+    def Select(self, f):
+        return LazySeq(f(x) for x in self)
+
+    def Where(self, f):
+        return LazySeq(x for x in self if f(x))
+
+    def SelectMany(self, f):
+        return LazySeq(y for x in self for y in f(x))
+
+    def First(self):
+        for x in self:
+            return x
+        raise IndexError("First() of an empty sequence")
+
+    def Count(self):
+        return len(self)
+
+    def Aggregate(self, init, f):
+        acc = init
+        for x in self:
+            acc = f(acc, x)
+        return acc
+
+    def Sum(self):
+        return sum(self)
+
+    def Max(self):
+        return max(self)
+
+    def Min(self):
+        return min(self)
+
+
+class DSeq(list):
+    """data sequence for AST evaluation: a list whose operators are deferred"""
+
+    def Select(self, f):
+        return LazySeq(self).Select(f)
+
+    def Where(self, f):
+        return LazySeq(self).Where(f)
+
+    def SelectMany(self, f):
+        return LazySeq(self).SelectMany(f)
+
+    def First(self):
+        return LazySeq(self).First()
+
+    def Count(self):
+        return len(self)
+
+    def Aggregate(self, init, f):
+        return LazySeq(self).Aggregate(init, f)
+
+    def Sum(self):
+        return sum(self)
+
+    def Max(self):
+        return max(self)
+
+    def Min(self):
+        return min(self)
+
+
 def _seq(s):
-    if isinstance(s, Seq):
+    if isinstance(s, (LazySeq, DSeq)):
         return s
-    return Seq(list(s))
+    return LazySeq(s)
 
 
 def Select(s, f):
